@@ -5,14 +5,14 @@ Open Scope Z_scope.
 
 (* StoreResponse, sequentially: the entry and the index are in the store afterwards *)
 Theorem run_store_response limit {B} q r key refs a b i resolved (f : response -> prog B) w :
-  normalize_vary (hget (bs "Vary") (remove_hop_by_hop (p_hdr r))) (q_hdr q) = Some resolved ->
+  normalize_vary (join [44] (hvalues (bs "Vary") (remove_hop_by_hop (p_hdr r)))) (q_hdr q) = Some resolved ->
   p_body_ok r = true ->
   let r1 := with_hdr r (remove_hop_by_hop (p_hdr r)) in
   let id := make_vary_key key resolved in
   exists w', run limit (bind (store_response q r key refs a b i) f) w = run limit (f r1) w' /\
     get_entry (w_store w') id = Some (entry_of id r1 a b) /\
     (exists l, get_refs (w_store w') key = Some (unique_refs l) /\
-       In (Some {| r_id := id; r_vary := hget (bs "Vary") (p_hdr r1); r_resolved := resolved;
+       In (Some {| r_id := id; r_vary := join [44] (hvalues (bs "Vary") (p_hdr r1)); r_resolved := resolved;
                    r_recv := date_header (p_hdr r1) |}) l /\
        (forall j x, Z.of_nat j <> i -> nth_error refs j = Some x -> In x l)) /\
     w_clock w' = w_clock w /\
@@ -78,7 +78,7 @@ Theorem run_freshen limit ctx q r w resolved :
   let stored := rc_stored ctx in
   let merged_hdr := update_stored_headers (e_hdr stored) (p_hdr r) in
   let final_hdr := remove_hop_by_hop merged_hdr in
-  normalize_vary (hget (bs "Vary") final_hdr) (q_hdr q) = Some resolved ->
+  normalize_vary (join [44] (hvalues (bs "Vary") final_hdr)) (q_hdr q) = Some resolved ->
   let id := make_vary_key (rc_url_key ctx) resolved in
   exists w' out, (run limit (handle_validation_response ctx q (RResp r)) w = (Done (OResp out), w')) /\
     (get_entry (w_store w') id =
